@@ -53,6 +53,7 @@ func TestVerifC07(t *testing.T) {
 		g := world.Generate(r, worldHosts(s, r.Intn), o)
 		feeds, feedNames := setFeeds(g, r)
 		s.SetHandler(wk.Handler(g.World))
+		s.ResetLog() // the byte log is only needed per world; keeping it would grow without bound
 		entry := g.Entries[r.Intn(len(g.Entries))]
 		viaFeed := r.Intn(5) == 0
 		tokens := randomTokens(r, g, feedNames, nKeys, false)
